@@ -5,7 +5,7 @@ set -e
 cd $WT
 git checkout -q -- pyjelly tests 2>/dev/null || true
 git apply $OUT/patch.diff
-T=$(/venv/bin/python -m pytest -q -p no:cacheprovider --timeout=900 2>&1 | tail -1)
+T=$(/venv/bin/python -m pytest -q -p no:cacheprovider --timeout=900 --ignore=_out 2>&1 | tail -1)
 git checkout -q -- tests
 set +e
 TREE=$WT /venv/bin/python $OUT/demo_$V.py > /tmp/demo_mod.txt 2>&1; D1=$?
